@@ -9,7 +9,8 @@ C17 — Encryption at rest hides stored contents and rejects tampering.
    rather than silently storing plaintext."
 
 PARTIAL: AES-GCM and crypto/rand are not modelled; the cipher is an abstract AEAD with the ideal
-properties written in `AEAD` (correctness, authenticity, key binding), and freshness of nonces is
+properties written in `AEAD` (correctness, authenticity, key binding, binding to the additional data, which
+is the entry's key), and freshness of nonces is
 a hypothesis. What IS repository logic — the wiring of option / DSN / environment and the
 nonce ‖ ciphertext pipeline of store/fscache/encrypt.go — is modelled and proved; the harness scans
 the real files for plaintext, compares repeated writes and tampers with every byte.
@@ -74,56 +75,73 @@ theorem option_without_usable_key_fails (usable : Str → Bool) (key : Str) (h :
     · rfl
     · simp [h]
 
-/-! ### pipeline: Encrypt = nonce ‖ Seal(nonce, value); Decrypt splits and Opens -/
+/-! ### pipeline: EncryptFor = nonce ‖ Seal(nonce, value, ad = entry key); DecryptFor splits and Opens -/
 
 structure AEAD where
   nonceSize : Nat
-  encryptFn : Str → Str → Str → Str          -- key, nonce, plaintext
-  decryptFn : Str → Str → Str → Option Str  -- key, nonce, ciphertext
-  correct : ∀ k n p, decryptFn k n (encryptFn k n p) = some p
-  /-- authenticity (ideal): only what Seal produced under this key and nonce opens -/
-  authentic : ∀ k n c p, decryptFn k n c = some p → c = encryptFn k n p
+  encryptFn : Str → Str → Str → Str → Str          -- key, nonce, additional data, plaintext
+  decryptFn : Str → Str → Str → Str → Option Str  -- key, nonce, additional data, ciphertext
+  correct : ∀ k n ad p, decryptFn k n ad (encryptFn k n ad p) = some p
+  /-- authenticity (ideal): only what Seal produced under this key, nonce and additional data opens -/
+  authentic : ∀ k n ad c p, decryptFn k n ad c = some p → c = encryptFn k n ad p
   /-- a different key opens nothing that was sealed -/
-  keyBinding : ∀ k k' n p, k ≠ k' → decryptFn k' n (encryptFn k n p) = none
+  keyBinding : ∀ k k' n ad p, k ≠ k' → decryptFn k' n ad (encryptFn k n ad p) = none
+  /-- nor do different additional data -/
+  adBinding : ∀ k n ad ad' p, ad ≠ ad' → decryptFn k n ad' (encryptFn k n ad p) = none
 
-def encrypt (A : AEAD) (key nonce value : Str) : Str := nonce ++ A.encryptFn key nonce value
+/-- fscache.set: the file of entry `ekey` -/
+def encrypt (A : AEAD) (key nonce ekey value : Str) : Str := nonce ++ A.encryptFn key nonce ekey value
 
-def decrypt (A : AEAD) (key data : Str) : Option Str :=
-  if data.length < A.nonceSize then none else A.decryptFn key (data.take A.nonceSize) (data.drop A.nonceSize)
+/-- fscache.get of entry `ekey` -/
+def decrypt (A : AEAD) (key ekey data : Str) : Option Str :=
+  if data.length < A.nonceSize then none else A.decryptFn key (data.take A.nonceSize) ekey (data.drop A.nonceSize)
 
-theorem decrypt_encrypt (A : AEAD) (key nonce value : Str) (hn : nonce.length = A.nonceSize) :
-    decrypt A key (encrypt A key nonce value) = some value := by
-  unfold decrypt encrypt
-  have h1 : ¬ (nonce ++ A.encryptFn key nonce value).length < A.nonceSize := by simp [List.length_append]; omega
+theorem split_encrypt (A : AEAD) (key nonce ekey value : Str) (hn : nonce.length = A.nonceSize) :
+    ¬ (encrypt A key nonce ekey value).length < A.nonceSize ∧
+    (encrypt A key nonce ekey value).take A.nonceSize = nonce ∧
+    (encrypt A key nonce ekey value).drop A.nonceSize = A.encryptFn key nonce ekey value := by
+  unfold encrypt
+  refine ⟨by simp [List.length_append]; omega, by rw [← hn]; simp, by rw [← hn]; simp⟩
+
+theorem decrypt_encrypt (A : AEAD) (key nonce ekey value : Str) (hn : nonce.length = A.nonceSize) :
+    decrypt A key ekey (encrypt A key nonce ekey value) = some value := by
+  obtain ⟨h1, h2, h3⟩ := split_encrypt A key nonce ekey value hn
+  unfold decrypt
   simp only [h1, ↓reduceIte]
-  have h2 : (nonce ++ A.encryptFn key nonce value).take A.nonceSize = nonce := by rw [← hn]; simp
-  have h3 : (nonce ++ A.encryptFn key nonce value).drop A.nonceSize = A.encryptFn key nonce value := by rw [← hn]; simp
   rw [h2, h3, A.correct]
 
-/-- Tamper rejection: whatever bytes are on disk, if Get accepts them and returns p, then the file
-    is exactly a genuine encryption of p under this key (with the nonce it starts with). Hence any
-    altered, truncated or extended file is rejected. -/
-theorem accepted_files_are_genuine (A : AEAD) (key data p : Str) (h : decrypt A key data = some p) :
-    data = encrypt A key (data.take A.nonceSize) p := by
+/-- Tamper rejection: whatever bytes are in the file of entry `ekey`, if Get accepts them and returns p,
+    then the file is exactly a genuine encryption of p under this key FOR THIS ENTRY (with the nonce it
+    starts with). Hence any altered, truncated or extended file is rejected — and so are the authentic
+    bytes of another entry's file (`other_entrys_file_is_rejected`). -/
+theorem accepted_files_are_genuine (A : AEAD) (key ekey data p : Str) (h : decrypt A key ekey data = some p) :
+    data = encrypt A key (data.take A.nonceSize) ekey p := by
   unfold decrypt at h
   split at h
   · cases h
   · unfold encrypt
-    rw [← A.authentic _ _ _ _ h, List.take_append_drop]
+    rw [← A.authentic _ _ _ _ _ h, List.take_append_drop]
+
+/-- substitution: the file written for one entry is rejected when it is read as another entry (the pinned
+    tree sealed without additional data and served it; see known_findings.json) -/
+theorem other_entrys_file_is_rejected (A : AEAD) (key nonce ekey ekey' value : Str) (hn : nonce.length = A.nonceSize)
+    (hk : ekey ≠ ekey') : decrypt A key ekey' (encrypt A key nonce ekey value) = none := by
+  obtain ⟨h1, h2, h3⟩ := split_encrypt A key nonce ekey value hn
+  unfold decrypt
+  simp only [h1, ↓reduceIte]
+  rw [h2, h3, A.adBinding _ _ _ _ _ hk]
 
 /-- a wrong key never yields data -/
-theorem wrong_key_yields_nothing (A : AEAD) (key key' nonce value : Str) (hn : nonce.length = A.nonceSize) (hk : key ≠ key') :
-    decrypt A key' (encrypt A key nonce value) = none := by
-  unfold decrypt encrypt
-  have h1 : ¬ (nonce ++ A.encryptFn key nonce value).length < A.nonceSize := by simp [List.length_append]; omega
+theorem wrong_key_yields_nothing (A : AEAD) (key key' nonce ekey value : Str) (hn : nonce.length = A.nonceSize) (hk : key ≠ key') :
+    decrypt A key' ekey (encrypt A key nonce ekey value) = none := by
+  obtain ⟨h1, h2, h3⟩ := split_encrypt A key nonce ekey value hn
+  unfold decrypt
   simp only [h1, ↓reduceIte]
-  have h2 : (nonce ++ A.encryptFn key nonce value).take A.nonceSize = nonce := by rw [← hn]; simp
-  have h3 : (nonce ++ A.encryptFn key nonce value).drop A.nonceSize = A.encryptFn key nonce value := by rw [← hn]; simp
-  rw [h2, h3, A.keyBinding _ _ _ _ hk]
+  rw [h2, h3, A.keyBinding _ _ _ _ _ hk]
 
 /-- two writes of the same value with different nonces produce different files -/
-theorem same_value_different_files (A : AEAD) (key n1 n2 value : Str) (h1 : n1.length = A.nonceSize) (h2 : n2.length = A.nonceSize)
-    (hne : n1 ≠ n2) : encrypt A key n1 value ≠ encrypt A key n2 value := by
+theorem same_value_different_files (A : AEAD) (key n1 n2 ekey value : Str) (h1 : n1.length = A.nonceSize) (h2 : n2.length = A.nonceSize)
+    (hne : n1 ≠ n2) : encrypt A key n1 ekey value ≠ encrypt A key n2 ekey value := by
   intro h
   unfold encrypt at h
   have := congrArg (List.take A.nonceSize) h
